@@ -1218,7 +1218,22 @@ impl<C: Cond> World<C> {
             let m = members_state_mirror(gs);
             (m.members.into_iter().map(|(k, v)| (k, (v.member_counter % 2 == 1, lvl(&v.access.level)))).collect(), true)
         };
-        Some(Self::judge(&self.ops[seq].op, &model, via_canonical))
+        let v = Self::judge(&self.ops[seq].op, &model, via_canonical);
+        if !v.ok && via_canonical {
+            // With concurrency inside the group the state at the dependencies is only well defined
+            // if the CRDT merge is; where the author's (or target's) concurrently assigned accesses
+            // are not consistently ordered by Access::partial_cmp, replicas legitimately disagree
+            // about it (that is C31's finding, reported there) and there is no reference here.
+            let author = GroupMember::Individual(self.ops[seq].op.author);
+            let target = action_target(&self.ops[seq].op.action);
+            let anc = self.ops[seq].anc;
+            let amb = Self::has_inconsistent_pair(&self.assigned_within(Some(g), |t| *t == author, anc)) || target.map(|t| Self::has_inconsistent_pair(&self.assigned_within(Some(g), |x| *x == t, anc))).unwrap_or(false);
+            if amb {
+                ctx::probe("verdict_ambiguous_state_at_dependencies");
+                return None;
+            }
+        }
+        Some(v)
     }
 
     /// Sequential replay of one group's operations with the documented rules.
@@ -1520,9 +1535,39 @@ impl<C: Cond> World<C> {
                 }
             }
         }
-        if !self.nested_edges.is_empty() {
+        // Nesting among the operations that were accepted.
+        let mut edges: BTreeSet<(Id, Id)> = BTreeSet::new();
+        for o in self.ops.iter().filter(|o| !o.accepted_by.is_empty()) {
+            match &o.op.action {
+                GroupAction::Create { initial_members } => {
+                    for (m, _) in initial_members {
+                        if let GroupMember::Group(c) = m {
+                            edges.insert((o.op.group_id, *c));
+                        }
+                    }
+                }
+                GroupAction::Add { member: GroupMember::Group(c), .. } => {
+                    edges.insert((o.op.group_id, *c));
+                }
+                _ => {}
+            }
+        }
+        if !edges.is_empty() {
             ctx::probe("nested_group");
-            if self.nested_edges.iter().any(|(p, c)| self.reaches(*c, *p)) {
+            let reach = |from: Id, to: Id| {
+                let mut stack = vec![from];
+                let mut seen = BTreeSet::new();
+                while let Some(x) = stack.pop() {
+                    if x == to {
+                        return true;
+                    }
+                    if seen.insert(x) {
+                        stack.extend(edges.iter().filter(|(p, _)| *p == x).map(|(_, c)| *c));
+                    }
+                }
+                false
+            };
+            if edges.iter().any(|(p, c)| reach(*c, *p)) {
                 ctx::probe("nested_group_cycle");
             }
         }
@@ -1550,9 +1595,14 @@ impl<C: Cond> World<C> {
     /// Accesses that accepted operations assigned (create / add / promote / demote), filtered by
     /// group and by member.
     fn assigned(&self, g: Option<Id>, pred: impl Fn(&GroupMember<Id>) -> bool) -> Vec<(u8, Option<C>)> {
+        self.assigned_within(g, pred, u128::MAX)
+    }
+
+    /// Same, restricted to the operations whose bit is set in `within`.
+    fn assigned_within(&self, g: Option<Id>, pred: impl Fn(&GroupMember<Id>) -> bool, within: u128) -> Vec<(u8, Option<C>)> {
         let mut out: BTreeSet<(u8, Option<C>)> = BTreeSet::new();
-        for o in &self.ops {
-            if o.accepted_by.is_empty() || g.map(|g| g != o.op.group_id).unwrap_or(false) {
+        for (i, o) in self.ops.iter().enumerate() {
+            if within & (1u128 << i) == 0 || o.accepted_by.is_empty() || g.map(|g| g != o.op.group_id).unwrap_or(false) {
                 continue;
             }
             match &o.op.action {
@@ -1695,6 +1745,9 @@ impl<C: Cond> World<C> {
             // (other hasher keys).
             let accepted: Vec<usize> = (0..self.ops.len()).filter(|i| !self.ops[*i].accepted_by.is_empty()).collect();
             let ops: Vec<SimOp<C>> = accepted.iter().map(|i| self.ops[*i].op.clone()).collect();
+            // positions (in `ops`) of each operation's dependencies: the canonical replica sits
+            // behind the same causal buffer as everybody else.
+            let dep_pos: Vec<Vec<Option<usize>>> = accepted.iter().map(|i| self.ops[*i].deps.iter().map(|d| accepted.iter().position(|a| a == d)).collect()).collect();
             let g2 = groups.clone();
             let h = std::thread::Builder::new()
                 .name("sim-canonical".into())
@@ -1703,6 +1756,9 @@ impl<C: Cond> World<C> {
                     let mut y = Crdt::<C>::init();
                     let mut done = vec![];
                     for (k, op) in ops.iter().enumerate() {
+                        if !dep_pos[k].iter().all(|d| d.map(|d| done.contains(&d)).unwrap_or(false)) {
+                            continue;
+                        }
                         if let Ok(n) = Crdt::<C>::process(y.clone(), op) {
                             y = n;
                             done.push(k);
@@ -1746,9 +1802,18 @@ impl<C: Cond> World<C> {
                 for (s, o) in self.ops.iter().enumerate() {
                     if !o.accepted_by.is_empty() && !o.rejected_by.is_empty() {
                         let err = o.rejected_by.values().next().copied().unwrap_or("?");
+                        let author = GroupMember::Individual(o.op.author);
+                        let target = action_target(&o.op.action);
+                        let g = o.op.group_id;
+                        let amb = Self::has_inconsistent_pair(&self.assigned_within(Some(g), |t| *t == author, o.anc)) || target.map(|t| Self::has_inconsistent_pair(&self.assigned_within(Some(g), |x| *x == t, o.anc))).unwrap_or(false);
+                        let site = if amb {
+                            "an operation is accepted by one replica and rejected by another: the author's (or target's) access at the dependencies is order-dependent, because the accesses concurrently assigned to it are not consistently ordered by Access::partial_cmp (state::merge tie-break)".to_string()
+                        } else {
+                            format!("{} accepted by one replica and rejected by another ({err}); assigned accesses consistently ordered", action_kind(&o.op.action))
+                        };
                         violation(
                             "replicas-cannot-process-the-same-set",
-                            &format!("{} accepted by one replica and rejected by another ({err})", action_kind(&o.op.action)),
+                            &site,
                             format!("{} accepted by {:?}, rejected by {:?}", self.show_op(s), o.accepted_by.iter().map(|r| self.reps[*r].actor).collect::<Vec<_>>(), o.rejected_by.iter().map(|(r, e)| (self.reps.get(*r).map(|x| x.actor).unwrap_or('?'), *e)).collect::<Vec<_>>()),
                         );
                         reported = true;
@@ -1857,7 +1922,56 @@ impl<C: Cond> World<C> {
     }
 }
 
+/// Hand-written scenarios (debugging aid, `GROUPWORLD_SCRIPT=<name> p2sim-auth one C33 1 0`):
+/// consequences of findings that the random workload deliberately stays away from.
+pub fn scripted(name: &str) {
+    type Y = State<Expiry>;
+    let op = |id: u32, author: char, deps: &[u32], g: char, action: GroupAction<Id, Expiry>| SimOp { id, author, dependencies: deps.to_vec(), group_id: g, action };
+    let ind = GroupMember::Individual;
+    let feed = |ops: &[&SimOp<Expiry>]| -> Y {
+        let mut y: Y = Crdt::<Expiry>::init();
+        for o in ops {
+            match Crdt::<Expiry>::process(y.clone(), o) {
+                Ok(n) => {
+                    evl!("  #{} {} in g{}: {} -> ok", o.id, o.author, o.group_id, show_action(&o.action));
+                    y = n
+                }
+                Err(e) => evl!("  #{} {} in g{}: {} -> REJECTED({})", o.id, o.author, o.group_id, show_action(&o.action), err_name(&e)),
+            }
+        }
+        y
+    };
+    match name {
+        // An operation on a group whose create is not in the causal past of its dependencies.
+        "unknown_group" => {
+            let o1 = op(1, 'A', &[], '1', GroupAction::Create { initial_members: vec![(ind('A'), Access::manage())] });
+            let o2 = op(2, 'X', &[1], '9', GroupAction::Add { member: ind('X'), access: Access::manage() });
+            let y = feed(&[&o1, &o2]);
+            evl!("members(g1) = [{}]", show_mem(&mem_view(&y, '1')));
+        }
+        // A non-member's forged no-op demote of a pull member cancels that member's later,
+        // concurrent, legitimate operations (the strong-remove filter treats it as a demotion).
+        "forged_demote_cancels" => {
+            let o1 = op(1, 'A', &[], '1', GroupAction::Create { initial_members: vec![(ind('A'), Access::manage()), (ind('D'), Access::pull())] });
+            let o2 = op(2, 'X', &[1], '1', GroupAction::Demote { member: ind('D'), access: Access::read() });
+            let o3 = op(3, 'A', &[1], '1', GroupAction::Promote { member: ind('D'), access: Access::manage() });
+            let o4 = op(4, 'D', &[3], '1', GroupAction::Add { member: ind('E'), access: Access::read() });
+            evl!("without the forged operation:");
+            let y = feed(&[&o1, &o3, &o4]);
+            evl!("members(g1) = [{}]", show_mem(&mem_view(&y, '1')));
+            evl!("with the forged operation #2 by non-member X:");
+            let y = feed(&[&o1, &o3, &o4, &o2]);
+            evl!("members(g1) = [{}]", show_mem(&mem_view(&y, '1')));
+        }
+        _ => evl!("unknown script"),
+    }
+}
+
 pub fn run_world<C: Cond>(cfg: Cfg) {
+    if let Ok(name) = std::env::var("GROUPWORLD_SCRIPT") {
+        scripted(&name);
+        return;
+    }
     let mut w: World<C> = World::new(cfg);
     w.run();
 }
